@@ -778,6 +778,11 @@ func (s *State) GetReverseStateDiff(
 			value := felt.Zero
 			if blockNumber > 0 {
 				oldValue, err := s.ContractStorageAt(&addr, &key, blockNumber-1)
+				if errors.Is(err, ErrCheckHeadState) {
+					// No history entry: the write at blockNumber did not change the slot
+					// (zero written to an unset slot), so the old value is the current one.
+					oldValue, err = s.ContractStorage(&addr, &key)
+				}
 				if err != nil {
 					return core.StateDiff{}, err
 				}
